@@ -7,7 +7,7 @@ from typing import Dict, List, Optional
 from ..loopflow import count_in_path, first_index
 from ..model import AnalysisError, FuncInfo, Program, dotted, own_nodes, unparse
 from ..symex import atoms_of, facts_for
-from .common import U, bind_args, const_value, enum_member, enum_members, is_self_attr, kwarg, np_call, returns_of, short
+from .common import value_sites, U, bind_args, const_value, enum_member, enum_members, is_self_attr, kwarg, np_call, returns_of, short
 from .solveloop import is_aug, is_method_call, loop_name, solve_loop
 
 STATUS = "pygradflow.status.SolverStatus"
@@ -47,8 +47,8 @@ def run(prog: Program, rep, tier: str) -> None:
         "Optimal": [("<=", f"{itp}.total_res", "self.params.opt_tol")],
     }
     seen: Dict[str, int] = {}
-    for r in returns_of(ct):
-        st = status_of(prog, ct, ff.resolved(r, r.value) if r.value is not None else None)
+    for r, rv in value_sites(ct, ff):
+        st = status_of(prog, ct, ff.resolved(r, rv) if not (isinstance(rv, ast.Constant) and rv.value is None) else None)
         if st is None:
             rep.fail("status-exhaustive", ct.qualname, short(r), "VIOLATED: _check_terminate returns something that is neither a SolverStatus member nor None", ct.loc(r))
             continue
